@@ -262,18 +262,25 @@ class Functor(pg_object.Object, utils.Functor):
     """Custom handling field change to update bound args."""
     for relative_path, update in field_updates.items():
       assert relative_path
-      if len(relative_path) != 1:
-        continue
-      arg_name = str(relative_path)
-      if update.field.default_value == update.new_value:
-        if update.field.value.has_default:
+      arg_name = str(relative_path.keys[0])
+      if len(relative_path) == 1:
+        field, new_value = update.field, update.new_value
+      else:
+        # A change inside the value bound to an argument (e.g. `cfg.a`): the
+        # argument is given by the user from now on.
+        field = self.sym_attr_field(arg_name)
+        new_value = self.sym_getattr(arg_name)
+        if field is None:
+          continue
+      if field.default_value == new_value:
+        if field.value.has_default:
           self._default_args.add(arg_name)
         self._non_default_args.discard(arg_name)
       else:
         self._default_args.discard(arg_name)
         self._non_default_args.add(arg_name)
 
-      if update.new_value == pg_typing.MISSING_VALUE:
+      if new_value == pg_typing.MISSING_VALUE:
         self._specified_args.discard(arg_name)
       else:
         self._specified_args.add(arg_name)
